@@ -6,7 +6,10 @@ an interior / the last node) on a uniform grid that contains f=0 and on a non-un
 starts above 0; 2D spectra with all energy in ONE direction bin, for every bin of uniform
 direction grids with N = 8 and 12 bins (thorough: also N = 5 starting at 10 degrees, so that no
 bin direction is a multiple of 15 degrees); sampling rate x signal length (even and odd) x all
-six components x seeds {0, 1, 2**32-1} x scale factors.
+six components x seeds {0, 1, 2**32-1} x scale factors.  Two further families on named restrictions:
+direction grids that do not start at 0 (energy in every bin, the last one included), and every signal
+length of a contiguous range for dyadic and non-dyadic sampling rates with energy at the Nyquist
+frequency (the number of FFT bins must not depend on float rounding of the frequency grid).
 
 Oracle (numpy / math only, nothing imported from the library): the series has as many samples as
 its time axis and time[k] = k/fs; the same seed gives bit-identical series, different seeds give
@@ -33,7 +36,12 @@ RULE = (
     "N=8 and N=12 grids (thorough: and of an offset N=5 grid) x 2 frequency shapes) x sampling rate "
     "{0.5,1,2.5,10} (thorough: +1.28) x signal length {8,9,16,17,100,101,1000} (thorough: +19999,20000) x component "
     "{z,w,x,y,u,v} x seed {0,1,2**32-1} (thorough: +2**31-1); every member is generated twice with the same seed and once per scale "
-    "factor c (quick {0.3}; thorough {4,0.3}). A member is non-trivial when the reference variance of that "
+    "factor c (quick {0.3}; thorough {4,0.3}). Offset family: every bin (the last included) of N=8 direction grids "
+    "with origin 7.5, 350 (stored wrapped: 350,35,80,..), -180, -170 x all rates x all components on the named "
+    "restriction lengths {16,17,100}, seed {1}, no scale / repeat call (thorough: lengths {16,17,100,1000}, all "
+    "seeds, c=0.3). Dense family: a ramp spectrum on a 0..6 Hz grid (energy at and beyond fs/2) x rates "
+    "{0.5,0.7,1,2.5,3.3,10} (thorough: +1.28) x EVERY length 8..260 (thorough: 8..520) x components {z,w} "
+    "(thorough: all six, and the 1D spectrum as well) x seed {1}. A member is non-trivial when the reference variance of that "
     "component is > 0 (resampled spectrum has energy at some k>=1 and the component's direction factor is not "
     "zero); distinct = distinct (spectrum, fs, nfft, component, seed) - an odd length and the even length below "
     "it are the same case."
@@ -53,6 +61,7 @@ REQUIRED_CATEGORIES = [
     "1d", "2d", "even_length", "odd_length", "f0_energy_excluded", "both_horizontal_nonzero",
     "one_horizontal_zero", "beyond_grid_zero_bins", "below_grid_zero_bins", "endpoint_ambiguous",
     "zero_variance_trivial", "seed_pairs_compared", "scaled_series_compared", "same_seed_compared",
+    "energy_at_nyquist_excluded", "dense_lengths", "offset_grid_last_bin", "offset_grid_other_bin",
 ]
 
 SEEDS = [0, 1, 2 ** 32 - 1]
@@ -61,7 +70,8 @@ COMPONENTS = ["z", "w", "x", "y", "u", "v"]
 
 GRID_A = np.linspace(0.0, 1.0, 21)  # contains f = 0
 GRID_B = np.array([0.04, 0.05, 0.07, 0.1, 0.13, 0.17, 0.2, 0.25, 0.3, 0.36, 0.42, 0.5, 0.6, 0.75, 1.0, 1.3])
-GRIDS = {"A": GRID_A, "B": GRID_B}
+GRID_W = np.linspace(0.0, 6.0, 25)  # wide: energy at and beyond fs/2 for every sampling rate
+GRIDS = {"A": GRID_A, "B": GRID_B, "W": GRID_W}
 WORD = [0.0, 1.0, 3.0, 1.0, 0.0, 0.0, 3.0]
 
 
@@ -98,6 +108,25 @@ def dir_grids(tier):
     return g
 
 
+# direction grids that do not start at 0 (offset family): 7.5.., a rotated grid stored in wrapped,
+# hence unsorted, form (350, 35, 80, ...), and the -180.. / -170.. conventions
+OFFSET_ORIGINS = [7.5, 350.0, -180.0, -170.0]
+
+
+def offset_grid(origin, n=8):
+    d = origin + np.arange(n) * 360.0 / n
+    return d % 360.0 if origin > 0 else d
+
+
+def dense_axes(tier):
+    """dense family: every even and odd signal length in a contiguous range (the number of FFT bins
+    is where float rounding of the frequency grid can go wrong), dyadic and non-dyadic rates."""
+    rates = [0.5, 0.7, 1.0, 2.5, 3.3, 10.0] + ([1.28] if tier == "thorough" else [])
+    lengths = list(range(8, 261 if tier == "quick" else 521))
+    comps = ["z", "w"] if tier == "quick" else list(COMPONENTS)
+    return rates, lengths, comps
+
+
 def axes(tier):
     fs = [0.5, 1.0, 2.5, 10.0]
     ln = [8, 9, 16, 17, 100, 101, 1000]
@@ -111,7 +140,8 @@ def axes(tier):
 
 def units(tier):
     """One unit = (spectrum family part, sampling rate): 1D shapes in pairs, direction bins in
-    chunks of four, so that the 16 workers are evenly loaded."""
+    chunks of four, so that the 16 workers are evenly loaded.  Units of the offset and dense
+    families carry their own (restricted) length / seed / scale / component axes."""
     fs, ln, sc = axes(tier)
     us = []
     for rate in fs:
@@ -125,6 +155,28 @@ def units(tier):
                     bins = list(range(b, min(b + 4, len(d))))
                     us.append({"name": f"2d:{dg}:{g}{sh}:bins{bins[0]}-{bins[-1]}:fs{rate}", "kind": "2d", "dgrid": dg,
                                "grid": g, "shape": sh, "bins": bins, "fs": rate, "cost": len(bins)})
+        # offset family: every bin (the last one included) of N=8 grids with another origin
+        for origin in OFFSET_ORIGINS:
+            u = {"name": f"2d:off{origin}:Bramp:fs{rate}", "kind": "2d", "origin": origin, "grid": "B", "shape": "ramp",
+                 "bins": list(range(8)), "fs": rate, "cost": 1}
+            if tier == "quick":
+                u.update(lengths=[16, 17, 100], seeds=[1], scales=[], repeat=False)
+            else:
+                u.update(lengths=[16, 17, 100, 1000], scales=[0.3], cost=4)
+            us.append(u)
+    rates, lengths, comps = dense_axes(tier)
+    for rate in rates:
+        kinds = [("2d", {"dgrid": "N8", "bins": [1]})]
+        if tier == "thorough":
+            kinds.append(("1d", {"shapes": ["ramp"]}))
+        for kind, extra in kinds:
+            for h in range(0, len(lengths), 128):
+                chunk = lengths[h:h + 128]
+                u = {"name": f"dense:{kind}:Wramp:fs{rate}:n{chunk[0]}-{chunk[-1]}", "kind": kind, "grid": "W", "shape": "ramp",
+                     "fs": rate, "lengths": chunk, "components": comps, "seeds": [1], "scales": [], "repeat": False,
+                     "family": "dense", "cost": 2}
+                u.update(extra)
+                us.append(u)
     return us
 
 
@@ -201,7 +253,8 @@ def spectra_for(unit):
             out.append(({"kind": "1d", "grid": unit["grid"], "shape": sh}, build, f, e, 1.0, None))
     else:
         f = GRIDS[unit["grid"]]
-        d = dir_grids(tier)[unit["dgrid"]]
+        d = offset_grid(unit["origin"]) if "origin" in unit else dir_grids(tier)[unit["dgrid"]]
+        dname = f"off{unit['origin']}" if "origin" in unit else unit["dgrid"]
         e = shape_values(unit["shape"], f)
         nd = len(d)
         for j in unit["bins"]:
@@ -210,7 +263,7 @@ def spectra_for(unit):
                 e2[:, j] = e * scale
                 return make_2d(f, d, e2)
 
-            out.append(({"kind": "2d", "dgrid": unit["dgrid"], "grid": unit["grid"], "shape": unit["shape"], "bin": j},
+            out.append(({"kind": "2d", "dgrid": dname, "grid": unit["grid"], "shape": unit["shape"], "bin": j},
                         build, f, e, 360.0 / nd, float(d[j])))
     return out
 
@@ -223,6 +276,12 @@ def run_unit(unit):
     _, lengths, scales = axes(tier)
     fs = unit["fs"]
     seeds = SEEDS_THOROUGH if tier == "thorough" else SEEDS
+    # restricted axes of the offset / dense families (named in RULE)
+    lengths = unit.get("lengths", lengths)
+    scales = unit.get("scales", scales)
+    seeds = unit.get("seeds", seeds)
+    components = unit.get("components", COMPONENTS)
+    repeat = unit.get("repeat", True)
 
     def gen(key, comp, n, spec, seed):
         try:
@@ -243,7 +302,7 @@ def run_unit(unit):
             ref = reference(fgrid, e, fs, n, dtheta, theta)
             nfft = ref["nfft"]
             var = {}
-            for comp in COMPONENTS:
+            for comp in components:
                 series = {}
                 for seed in seeds:
                     key = dict(skey, fs=fs, n=n, component=comp, seed=seed)
@@ -280,7 +339,7 @@ def run_unit(unit):
                     c.cat("2d" if is2d else "1d")
                     series[seed] = z
                     # ---- same seed => identical ---------------------------------------------
-                    r2 = gen(key, comp, n, spec, seed)
+                    r2 = gen(key, comp, n, spec, seed) if repeat else None
                     if r2 is not None:
                         c.cat("same_seed_compared")
                         if not (np.array_equal(r2[1], z) and np.array_equal(r2[0], t)):
@@ -363,6 +422,12 @@ def run_unit(unit):
             # ---- categories (per spectrum x length) -----------------------------------------------
             if ref["m0sq"] > 0:
                 c.cat("f0_energy_excluded")
+            if float(np.interp(0.5 * fs, fgrid, e, left=0.0, right=0.0)) > 0:
+                c.cat("energy_at_nyquist_excluded")
+            if unit.get("family") == "dense":
+                c.cat("dense_lengths")
+            if "origin" in unit:
+                c.cat("offset_grid_last_bin" if skey["bin"] == 7 else "offset_grid_other_bin")
             c.cat("endpoint_ambiguous", ref["amb"])
             c.cat("beyond_grid_zero_bins", ref["zero_bins_above"])
             c.cat("below_grid_zero_bins", ref["zero_bins_below"])
@@ -371,9 +436,10 @@ def run_unit(unit):
                     c.cat("both_horizontal_nonzero")
                 else:
                     c.cat("one_horizontal_zero")
-        rs = reference(fgrid, e, fs, lengths[4], dtheta, theta)
+        ns = lengths[min(4, len(lengths) - 1)]
+        rs = reference(fgrid, e, fs, ns, dtheta, theta)
         if rs["z"][0] > 0:
-            c.sample({"spectrum": skey, "fs": fs, "n": lengths[4], "component": "z", "seeds": seeds,
+            c.sample({"spectrum": skey, "fs": fs, "n": ns, "component": "z", "seeds": seeds,
                       "reference_variance_z": rs["z"][0], "reference_variance_w": rs["w"][0], "df": rs["df"]})
     return c.result()
 
